@@ -98,6 +98,49 @@ def crv(A, C):
     return {"A": A, "C": C, "A24.x": (1, 0), "A24.z": (0, 0), "is_A24_computed_and_normalized": 0}
 
 
+def jac_point_check(K, expected):
+    """compare a Jacobian result with the oracle *as a point*, ∞ in the canonical form (0 : Y≠0 : 0) that DBL / ADD
+    themselves test for (later operations depend on it)"""
+    def chk(F, I):
+        X, Y, Z = F[0], F[1], F[2]
+        if expected is None:
+            if X == (0, 0) and Z == (0, 0) and Y != (0, 0):
+                return None
+            return "expected canonical infinity (0 : Y : 0), got (%s : %s : %s)" % (hx(X), hx(Y), hx(Z))
+        if Z == (0, 0):
+            return "expected the affine point x=%s, got Z = 0 (X=%s)" % (hx(expected[0]), hx(X))
+        got = jac_affine(K, (X, Y, Z))
+        return None if got == expected else "expected the affine point x=%s y=%s, got x=%s y=%s" % (
+            hx(expected[0]), hx(expected[1]), hx(got[0]), hx(got[1]))
+    return chk
+
+
+def oracle_prog(E, regs, prog):
+    """evaluate a register program on the group; also report whether a doubling of a point of order 2 occurred
+    (known finding: DBL then returns a non-canonical infinity)"""
+    regs = list(regs)
+    dbl_of_2tors = False
+    for c, i, j in prog:
+        if c == 1:
+            a, b = regs[i], regs[j]
+            if a is not None and a == b and a[1] == (0, 0):
+                dbl_of_2tors = True
+            regs.append(E.add(a, b))
+        elif c == 2:
+            a = regs[i]
+            if a is not None and a[1] == (0, 0):
+                dbl_of_2tors = True
+            regs.append(E.add(a, a))
+        else:
+            regs.append(E.neg(regs[i]))
+    return regs[-1], dbl_of_2tors
+
+
+def seqline(lvl, a, jregs, prog):
+    fs = [a] + [c for J in jregs for c in J]
+    return "jac.seq %x %x " % (lvl, len(fs)) + " ".join(hx(f) for f in fs) + " " + " ".join("%x %x %x" % t for t in prog)
+
+
 def build_cases(ctx, H, lvl, tag, ncurves, nscal):
     """-> list of dict(line=op line for drv_ec, check=fn(outF, outI) -> None | str, key, cls, info)"""
     G = Gen(ctx, lvl, tag)
@@ -188,6 +231,49 @@ def build_cases(ctx, H, lvl, tag, ncurves, nscal):
                 (lambda F, I: None if (F[1] == (0, 0) and K.add(F[0], F[2]) == (0, 0) and F[2] != (0, 0)) else
                  "isomorphism E_a -> E_-a is not x -> -x: (Nx, Nz, D) = (%s, %s, %s)" % (hx(F[0]), hx(F[1]), hx(F[2]))), info0)
             add("ec_iso_eval", H.line(lvl, "ec_iso_eval", P_in=pt(xz), isom={"Nx": K.neg(d), "Nz": (0, 0), "D": d}), xcheck(E2, P2), info0)
+        # ---------------- multi-step Jacobian sequences (the representation of ∞ must survive later operations)
+        regs = [P, Q, None, T[-1]]
+        progs = [("(P+(-P))+Q", [(3, 0, 0), (1, 0, 4), (1, 5, 1)]),
+                 ("Q+(P+(-P))", [(3, 0, 0), (1, 0, 4), (1, 1, 5)]),
+                 ("((-P)+P)+Q", [(3, 0, 0), (1, 4, 0), (1, 5, 1)]),
+                 ("(P+Q)+(-Q)", [(1, 0, 1), (3, 1, 0), (1, 4, 5)]),
+                 ("P+(-P)", [(3, 0, 0), (1, 0, 4)]),
+                 ("DBL(P+(-P))", [(3, 0, 0), (1, 0, 4), (2, 5, 0)]),
+                 ("DBL(P+(-P))+Q", [(3, 0, 0), (1, 0, 4), (2, 5, 0), (1, 6, 1)]),
+                 ("(P+(-P))+(Q+(-Q))", [(3, 0, 0), (1, 0, 4), (3, 1, 0), (1, 1, 6), (1, 5, 7)]),
+                 ("((P+(-P))+(Q+(-Q)))+P", [(3, 0, 0), (1, 0, 4), (3, 1, 0), (1, 1, 6), (1, 5, 7), (1, 8, 0)]),
+                 ("(2P+(-P))+(-P)+Q", [(2, 0, 0), (3, 0, 0), (1, 4, 5), (1, 6, 5), (1, 7, 1)]),
+                 ("(P+inf)+(-P)+Q", [(1, 0, 2), (3, 0, 0), (1, 4, 5), (1, 6, 1)]),
+                 ("inf+inf+Q", [(1, 2, 2), (1, 4, 1)]),
+                 ("(P+P)+(-(2P))+Q", [(1, 0, 0), (3, 4, 0), (1, 4, 5), (1, 6, 1)]),
+                 ("3P+(-P) by steps", [(2, 0, 0), (1, 4, 0), (3, 0, 0), (1, 5, 6)]),
+                 ("DBL(T)+Q  [T of order 2]", [(2, 3, 0), (1, 4, 1)]),
+                 ("(T+T)+Q  [T of order 2]", [(1, 3, 3), (1, 4, 1)])]
+        for _ in range(3):
+            prog, n = [], len(regs)
+            for t in range(4 + rng.below(6)):
+                c = 1 + rng.below(3)
+                prog.append((c, rng.below(n + t), rng.below(n + t)))
+            progs.append(("random program", prog))
+        for nm, prog in progs:
+            exp, d2 = oracle_prog(E, regs, prog)
+            jr = [G.jac(X) for X in regs]
+            add("jacseq", seqline(lvl, a, jr, prog), jac_point_check(K, exp), dict(info0, program=nm, ops=str(prog)),
+                degenerate="Jacobian:ADD-after-DBL-of-2-torsion" if d2 else None)
+        # DBLMUL / DBLMUL_generic with partial sums passing through ∞ (Q = -P) and generic
+        nP = E.neg(P)
+        for (k, l, Y, nm) in [(3, 1, nP, "-P"), (7, 2, nP, "-P"), (5, 5, nP, "-P"), (1, 1, nP, "-P"), (6, 3, nP, "-P"), (2, 1, nP, "-P"),
+                              (rng.bits(62) | 1, rng.bits(62), nP, "-P"), (rng.bits(64), rng.bits(64), Q, "Q"), (0, 0, Q, "Q"),
+                              (5, 0, Q, "Q"), (0, 9, Q, "Q")]:
+            for nb in (64, 64 * (bits // 64)):
+                kk, ll = (k, l) if nb == 64 or nm == "-P" else (rng.bits(nb), rng.bits(nb))
+                if nm == "-P" and nb > 64 and k > 7:
+                    sh = rng.below(nb - 64)
+                    kk, ll = k << sh, l << sh
+                fs = [a] + list(G.jac(P)) + list(G.jac(Y))
+                line = "jac.dblmul %x %x " % (lvl, len(fs)) + " ".join(hx(f) for f in fs) + " %x %x %x" % (nb, kk, ll)
+                add("DBLMUL" if nb == 64 else "DBLMUL_generic", line, jac_point_check(K, E.add(E.mul(kk, P), E.mul(ll, Y))),
+                    dict(info0, k="%x" % kk, l="%x" % ll, second=nm, nbits=nb))
         # ---------------- ladders
         order = p + 1
         scal = [0, 1, 2, 3, (1 << bits) - 1, rng.bits(bits), rng.bits(bits), rng.bits(bits // 2), 1 << (bits - 1)]
@@ -270,7 +356,7 @@ def evaluate(ctx, H, cases, lvl, with_model=True):
                 degen.append((c["degenerate"], dict(ops=[l1, l2], result=o2[0][:300], problem="ADD(DBL(T), Q) != Q", **c["info"])))
     dis = []
     if with_model:
-        ml = [c["line"] for c in norm if c["line"].startswith("ec.")]
+        ml = [c["line"] for c in norm if c["line"].startswith(("ec.", "jac."))]
         dis = vlib.correspond(ctx, "ladder models vs C lvl%d" % lvl, ml, [H.exe[lvl]])
     return fails, degen, dis
 
